@@ -178,10 +178,11 @@ func TestC08Searchers(t *testing.T) {
 		"oracle: the Next-only enumeration E of a fresh identical searcher is strictly increasing, and the program must behave as the simulation on E (Next=successor, Advance(t)=first e>=t, nil after the end, nil stays nil); " +
 		"non-trivial = compound searcher, >=1 Advance that skips >=1 match, and >=2 matches in E")
 	ev.Assume("targets are forward only (the contract); internal ids are compared bytewise; E comes from the same implementation (its truth is C02's subject)")
-	checkPropN(t, "C08", 500, func(t *rapid.T) {
+	checkPropN(t, "C08", 700, func(t *rapid.T) {
 		oldTakeover := setHeapTakeover(rapid.SampledFrom([]int{2, 10}).Draw(t, "heapTakeover"))
 		defer setHeapTakeover(oldTakeover)
-		c := BuildCorpus(t, CorpusOpts{MaxSteps: 10}.GenBig(t))
+		co := CorpusOpts{MaxSteps: 10}.GenBig(t)
+		c := BuildCorpus(t, co)
 		adv, err := c.Idx.Advanced()
 		if err != nil {
 			t.Fatalf("Advanced: %v", err)
@@ -202,11 +203,23 @@ func TestC08Searchers(t *testing.T) {
 		}
 		targets := c08Targets(c, reader)
 		// leaf kinds that usually match several documents are over-weighted so that programs have matches to skip
-		g := QGen{LeafKinds: append(append([]string{}, allLeafKinds...), "all", "prefix", "prefix", "term", "wildcard", "match", "termrange")}
+		g := QGen{LeafKinds: append(append([]string{}, allLeafKinds...), "all", "prefix", "prefix", "term", "wildcard", "match", "termrange", "docid", "docid"), IDs: co.IDs}
 		for qi := 0; qi < 3; qi++ {
 			var q *Q
-			if rapid.IntRange(0, 2).Draw(t, "frequentCompound") == 0 {
+			if shape := rapid.IntRange(0, 5).Draw(t, "queryShape"); shape <= 1 {
 				q = g.FrequentCompound(t, fmt.Sprintf("fq%d", qi))
+			} else if shape == 2 {
+				// a bare leaf: the readers themselves (term, doc-id, match-all readers of either
+				// engine), with no compound searcher above them to re-advance and hide a slip
+				q = g.Leaf(t, fmt.Sprintf("lq%d", qi))
+				if rapid.IntRange(0, 2).Draw(t, "bareDocID") == 0 {
+					// an id set with gaps: some documents of the index lie between its members
+					pool := g.IDs
+					if pool == nil {
+						pool = DocIDs
+					}
+					q = (&Q{Kind: "docid", IDs: rapid.SliceOfNDistinct(rapid.SampledFrom(pool), 2, 5, rapid.ID[string]).Draw(t, "bareIDs")}).fix()
+				}
 			} else {
 				q = g.Tree(t, fmt.Sprintf("q%d", qi), 3)
 			}
